@@ -528,10 +528,17 @@ def _calls(col, rule="C04.R7"):
 
 
 def check(col: Collector):
-    _binary(col)
-    _unary(col)
-    _builtins(col)
-    inplace_rules(col)
-    _zero_division(col)
-    _leaves(col)
-    _calls(col)
+    with col.rule():
+        _binary(col)
+    with col.rule():
+        _unary(col)
+    with col.rule():
+        _builtins(col)
+    with col.rule():
+        inplace_rules(col)
+    with col.rule():
+        _zero_division(col)
+    with col.rule():
+        _leaves(col)
+    with col.rule():
+        _calls(col)
